@@ -47,6 +47,43 @@ PROPS = {
         "explanation": "",
         "not_decided": [],
     },
+    "C07": {
+        "units": ["machine", "bounds"],
+        "kani": {"quick": ["s07_usize_div_ceil_8"], "thorough": []},
+        "level": "proof",
+        "level_text": "Unbounded deductive proof (Verus) of (1) every Bit Machine memory primitive (Frame::*, BitMachine::{new_write_frame, "
+                      "move_write_frame_to_read, drop_read_frame, write_bit, write_u8, write_bytes, read_bit, copy, skip, fwd, back}): indices in "
+                      "bounds, no arithmetic overflow, machine invariant preserved, cells/frames accounted exactly; (2) every NodeBounds "
+                      "formula = the stated recurrence, saturating instead of overflowing; (3) LimitError::check_program / BitMachine::for_program "
+                      "refuse exactly the programs beyond the hard limits and size the buffer and frame stacks from the bounds. PARTIAL: the "
+                      "interpreter loop exec_with_tracker (that each arm meets the primitives' preconditions) is not under contract.",
+        "level_note": "Not decided: the induction over program structure inside exec_with_tracker / exec_jet (unsafe FFI). Assumed: RedeemNode accessors "
+                      "return fixed arbitrary values (R8 stand-ins); Vec::capacity/with_capacity contract; derive semantics of Cost ordering; "
+                      "buffers shorter than 2^60 bytes.",
+        "assumptions": [
+            "RedeemNode::arrow()/bounds() are pure accessors (R8 stand-ins with uninterpreted values)",
+            "Vec::with_capacity(n) yields capacity >= n; Vec::capacity >= len",
+            "data buffer shorter than 2^60 bytes (for_program caps it at 3*MAX_CELLS bits)",
+        ],
+        "not_decided": ["exec_with_tracker's call-stack loop establishes each primitive's precondition on every path",
+                        "exec_jet (unsafe FFI marshalling)"],
+        "explanation": "",
+    },
+    "C05": {
+        "units": ["machine"],
+        "kani": {"quick": [], "thorough": []},
+        "level": "proof",
+        "level_text": "Unbounded deductive proof (Verus) of the functional contract of every memory primitive the interpreter is built from: "
+                      "write_bit sets exactly one bit and leaves every other bit of the buffer unchanged; read/peek return the bit under the cursor; "
+                      "copy_from / copy move a bit range between non-overlapping frames for every pair of alignments, changing nothing else; "
+                      "write_u8 / write_bytes are big-endian. This is the property's 'independent of where values sit in memory' at the level "
+                      "where it is implemented. PARTIAL: the per-combinator arms of exec_with_tracker and the jets are not under contract.",
+        "level_note": "Not decided: the combinator arms of exec_with_tracker, exec_jet, the C jets themselves, Value<->frame conversion beyond "
+                      "the primitives. Assumed as for C07.",
+        "assumptions": ["data buffer shorter than 2^60 bytes"],
+        "not_decided": ["per-combinator semantics of exec_with_tracker", "exec_jet and jet functions (C code)"],
+        "explanation": "",
+    },
 }
 
 NOT_APPLICABLE = [
